@@ -1,6 +1,7 @@
 package epochsim
 
 import (
+	"bytes"
 	"fmt"
 	"hash/fnv"
 	"os"
@@ -85,6 +86,7 @@ type world struct {
 	hdr        *block.MetaBlock
 	infos      [][]*state.ShardValidatorInfo // one slice per peer miniblock, canonical order
 	noise      bool
+	cand       int // index of the current epoch-start candidate of the epoch in flight (0 = first block seen)
 	stuck      bool
 	epochCalls []epochCall
 	lastGood   *shuffleCall
@@ -647,12 +649,16 @@ func (w *world) deliverPrepare(n *node, seed int64, fault string, faultAt int) {
 		if n.computedEpoch == w.epoch {
 			c.Probe("prepare-delivered-again")
 		}
+		if n.lastPrepared == w.epoch && n.preparedCand != w.cand {
+			c.Probe("prepare-of-competing-candidate-after-another")
+		}
+		n.preparedCand = w.cand
 		n.lastPrepared = w.epoch
 		n.computedEpoch = w.epoch
 		n.prepCount++
 		w.oracleC16(n)
 	}
-	c.Eventf("prepare epoch=%d node=%d inc=%d seed=%d calls=%d known=%v putfail=%v", w.epoch, n.id, n.incarnation, seed, len(n.shuffler.calls)-before, w.knows(n, w.epoch), failed)
+	c.Eventf("prepare epoch=%d cand=%d node=%d inc=%d seed=%d calls=%d known=%v putfail=%v", w.epoch, w.cand, n.id, n.incarnation, seed, len(n.shuffler.calls)-before, w.knows(n, w.epoch), failed)
 }
 
 func (w *world) deliverAction(n *node, fault string, faultAt int) {
@@ -715,8 +721,17 @@ func (w *world) restart(n *node, useOldKey bool, fault string, faultAt int) {
 		n.alive = false
 		return
 	}
+	n.keyNow = append([]byte(nil), key...) // the bootstrap data keeps naming the key the node came back from
 	if rolledBack {
 		n.lastPrepared = n.lastAction
+	}
+	if n.lastPrepared == w.epoch && w.hdr != nil && n.lastAction < w.epoch {
+		// which epoch-start candidate does the loaded state hold? (the state key is the candidate's PrevRandSeed)
+		if bytes.Equal(key, w.hdr.PrevRandSeed) {
+			n.preparedCand = w.cand
+		} else {
+			n.preparedCand = -1
+		}
 	}
 	reg := n.coord.NodesCoordinatorToRegistry()
 	stale := reg.CurrentEpoch != n.lastAction || !w.knows(n, n.lastPrepared)
@@ -744,13 +759,13 @@ func (w *world) finishEpoch() {
 		if !n.alive {
 			continue
 		}
-		if n.lastPrepared < w.epoch && n.lastAction < w.epoch {
+		if n.lastAction < w.epoch && (n.lastPrepared < w.epoch || n.preparedCand != w.cand) {
 			w.deliverPrepare(n, 0, "", 0)
 		}
 		if n.id == w.doubleNode && n.lastAction < w.epoch && n.lastPrepared == w.epoch && n.prepCount < 2 {
 			w.deliverPrepare(n, int64(w.epoch)*7919+int64(n.id)+1, "", 0)
 		}
-		if n.lastAction < w.epoch && n.lastPrepared == w.epoch {
+		if n.lastAction < w.epoch && n.lastPrepared == w.epoch && n.preparedCand == w.cand {
 			w.deliverAction(n, "", 0)
 		}
 		if c.Failed(c.Plan.Property) {
@@ -834,14 +849,39 @@ func (w *world) step(i int) {
 		w.hdr = &block.MetaBlock{Epoch: w.epoch, Nonce: uint64(w.epoch) * 10, Round: uint64(w.epoch) * 10, PrevRandSeed: rnd,
 			EpochStart: block.EpochStart{LastFinalizedHeaders: []block.EpochStartShardData{{ShardID: 0, Epoch: w.epoch}}}}
 		w.epochCalls = w.epochCalls[:0]
+		w.cand = 0
 		for _, n := range w.nodes {
 			n.prepCount = 0
+			n.preparedCand = 0
 		}
 		nInfos := 0
 		for _, mb := range w.infos {
 			nInfos += len(mb)
 		}
 		c.Eventf("epoch %d starts: rand=%x infos=%d fix=%v balanced=%v", w.epoch, rnd, nInfos, w.epoch >= w.fixEpoch, w.epoch >= w.balanceEpoch)
+	case "candidate":
+		// a competing epoch-start block for the SAME new epoch (another PrevRandSeed, same validator info, built on
+		// the same previous epoch); from now on this is the candidate that will become final. Impossible once a
+		// node has committed the epoch.
+		rnd := st.Bytes(0)
+		if w.stuck || w.epoch == 0 || w.hdr == nil || len(rnd) == 0 || bytes.Equal(rnd, w.hdr.PrevRandSeed) {
+			return
+		}
+		for _, n := range w.nodes {
+			if n.alive && n.lastAction >= w.epoch {
+				return
+			}
+		}
+		w.cand++
+		hdr := *w.hdr
+		hdr.PrevRandSeed = rnd
+		hdr.Round++
+		w.hdr = &hdr
+		for _, n := range w.nodes {
+			n.prepCount = 0
+		}
+		c.Probe("competing-epoch-start-candidate")
+		c.Eventf("epoch %d: competing candidate %d rand=%x", w.epoch, w.cand, rnd)
 	case "prepare":
 		n := w.nodeOf(st)
 		if w.stuck || w.epoch == 0 || n == nil || !n.alive || n.lastAction >= w.epoch {
@@ -853,8 +893,8 @@ func (w *world) step(i int) {
 		w.deliverPrepare(n, st.Int(0, 0), st.Fault, st.FaultAt)
 	case "action":
 		n := w.nodeOf(st)
-		if w.stuck || w.epoch == 0 || n == nil || !n.alive || n.lastPrepared != w.epoch {
-			return
+		if w.stuck || w.epoch == 0 || n == nil || !n.alive || n.lastPrepared != w.epoch || n.preparedCand != w.cand {
+			return // the block that becomes final is the current candidate: a node commits it only after preparing it
 		}
 		if n.lastAction == w.epoch {
 			c.Probe("duplicate-action")
